@@ -55,7 +55,23 @@ ASSUMPTIONS = [
     "contain no NUL and no newline; no logging concurrent with or after destroy; a formatter line ends with a newline",
     "async logger: channel capacity >= 3 (usable capacity >= 1) for destroy to return",
 ]
-EVIDENCE_NOTES = []
+EVIDENCE_NOTES = [
+    "async_destroy_drains is proved as async_destroy_drains_partial: once destroy has returned the writer thread has left "
+    "through the sentinel and every message it took is written whole on every accepting handler, accepted = taken ++ "
+    "queued; missing: 'nothing is queued behind the sentinel' (needs the counting invariant a_remaining = producers still "
+    "logging).  The monitor checks the full statement on every scheduler trace.",
+    "async_no_leak_on_full is proved as async_no_leak_on_full_partial: the refused message's two allocations are released "
+    "before the producer's next call (step-level lemma) and a complete concrete history ends with nothing outstanding; "
+    "missing: the global accounting invariant (a sum over threads).  The allocation shim checks zero outstanding blocks "
+    "after destroy on every run and the model's live count must equal the implementation's.",
+    "log_no_oob_refuted_before_repair and async_leak_and_hang_before_repair record the defects of the code as first found; "
+    "the model the implementation is compared with is the repaired one (fixes/C16-*.patch).",
+    "async logger with channel capacity <= 2: the channel can hold nothing (usable = next_pow_of_2(capacity) - 2 = 0), every "
+    "message is dropped and destroy spins for ever; such capacities are generated only when the class "
+    "async-capacity-unusable is listed in known_findings.txt (replay findings/C16-async-capacity-unusable.case).",
+    "payload malloc unchecked (DESIGN.md section 5) was repaired in /repo by commit cd82dd8 (C18); corpus case "
+    "corpus-async-payload-malloc-fails keeps checking it.",
+]
 
 
 def build_impl(ctx):
@@ -172,6 +188,11 @@ def corpus_cases(ctx):
         # the probe of DESIGN.md section 5: a file handler gets more bytes than its buffer holds
         _seq("corpus-overlong-file", "sync", [("cap", 512, "simple"), ("file", 512, "simple")],
              [("log", 512, 10, "s", b"x" * (limit - 6)), ("log", 512, 11, "s", b"next")]),
+        _seq("corpus-payload-limit", "sync", [("cap", 0, "raw")],
+             [("log", 512, 10, "s", b"q" * (limit - 2)), ("log", 512, 10, "s", b"r" * (limit - 1)), ("log", 512, 10, "s", b"s" * limit),
+              ("log", 512, 10, "ds", b"t" * limit)]),
+        _seq("corpus-payload-limit-async", "async 16", [("cap", 0, "raw")],
+             [("log", 512, 10, "s", b"r" * (limit - 1)), ("log", 512, 10, "s", b"s" * (limit + 7))]),
         _seq("corpus-exact-limit", "sync", [("file", 0, "simple")],
              [("log", 512, 10, "s", b"y" * (limit - 21)), ("log", 512, 10, "s", b"y" * (limit - 20)), ("log", 512, 11, "s", b"z")]),
         _seq("corpus-formatlike", "sync", [("cap", 0, "simple"), ("file", 0, "complicated"), ("console", 0, "simple")],
@@ -203,8 +224,8 @@ def generate(rng, tier):
             ops = [("log", lv, 100 + j, rng.choice(["s", "ds"]), b"lv%d/%d" % (lv, hl)) for j, lv in enumerate(allv)]
             cases.append(_seq("pairs-%s-%d" % (logger.split()[0], hl), logger, hs, ops))
     # (b) lengths x content x handler kinds
-    kinds_sets = [[("cap", 0, "simple"), ("file", 0, "simple")],
-                  [("cap", 0, "complicated"), ("file", 0, "complicated")],
+    kinds_sets = [[("cap", 0, "raw"), ("file", 0, "simple")],
+                  [("cap", 0, "complicated"), ("file", 0, "complicated"), ("cap", 0, "raw")],
                   [("console", 0, "simple"), ("rot", 0, "complicated")],
                   [("trot", 0, "simple"), ("conplain", 0, "complicated")]]
     lens = _boundary_lengths(limit)
@@ -220,6 +241,15 @@ def generate(rng, tier):
             ops = [("log", lv, 10 + k % 80, "s", _content(rng, ck, n)), ("log", lv, 11 + k % 80, "ds", b"after")]
             cases.append(_seq("len-%d-%s-%d" % (n, ck, r), logger, hs, ops))
             k += 1
+    # (b2) every built-in handler kind x formatter at the exact boundary: formatted line of LIMIT-2 .. LIMIT+2 bytes
+    for kd in ("file", "console", "conplain", "rot", "trot"):
+        for fm in (0, 1):
+            lv, srcline = LEVELS[(len(kd) + fm) % 6], 77
+            base = limit - len(format_line(fm, lv, srcline, 4242, (1700000000, 123456789), b""))
+            ops = [("log", lv, srcline, "s", _content(rng, "ascii", base + d)) for d in (-2, -1, 0, 1, 2)]
+            ops.append(("log", lv, srcline, "s", b"after"))
+            cases.append(_seq("edge-%s-%d" % (kd, fm), "sync" if fm else "async 64",
+                              [(kd, 0, "complicated" if fm else "simple"), ("cap", 0, "raw")], ops))
     # (c) random mixes
     nrand = 40 if tier == "quick" else 600
     for i in range(nrand):
@@ -279,6 +309,10 @@ def generate(rng, tier):
             hs = [("cap", rng.choice([0, 256, 512]), "simple")] + ([("file", rng.choice([0, 512]), "complicated")] if rng.chance(1, 2) else [])
             cases.append(_thr("vs-async-c%d-%d" % (capy, i), "vs", "async %d" % capy, hs, n, m, 12,
                               sched="rand %d %d 0 0" % (rng.below(1 << 30), rng.choice([20, 50, 80, 95]))))
+    if any(k["class"] == "async-capacity-unusable" for k in V.load_known_findings(ID)):
+        for capy in (1, 2):
+            cases.append(_thr("vs-async-unusable-c%d" % capy, "vs", "async %d" % capy, [("cap", 0, "simple")], 1, 2, 12,
+                              sched="rand %d 50 0 0" % rng.below(1 << 30)))
     return cases
 
 
@@ -323,7 +357,7 @@ def _parse_case(case):
         elif w[0] == "clock" and len(w) == 3:
             cfg["clock"] = (int(w[1]), int(w[2]))
         elif w[0] == "h" and len(w) == 4:
-            cfg["hs"].append((w[1], int(w[2]), 1 if w[3] == "complicated" else 0))
+            cfg["hs"].append((w[1], int(w[2]), 1 if w[3] == "complicated" else 2 if w[3] == "raw" else 0))
         elif w[0] == "setlevel" and len(w) == 3:
             cfg["ops"].append(("set", int(w[1]), int(w[2])))
         elif w[0] == "failmalloc" and len(w) == 2:
@@ -346,6 +380,8 @@ def level_name(lv):
 
 def format_line(fmt, level, srcline, tid, clock, payload):
     """The two built-in formatters of log_fmt.c, recomputed independently."""
+    if fmt == 2:
+        return payload              # the driver's custom formatter: the payload alone
     if fmt == 0:
         head = "%s|%s:%d - " % (level_name(level), SRC_BASENAME, srcline)
     else:
@@ -728,6 +764,10 @@ def tally(dist, case, lines):
 
 
 def known_class(case, failure_text):
+    cfg = _parse_case(case)
+    if cfg["mode"] == "vs" and cfg["async"] and usable_capacity(cfg["cap"]) == 0 and failure_text and \
+            "does not terminate" in failure_text:
+        return "async-capacity-unusable"
     return None
 
 
